@@ -1,7 +1,7 @@
 """C07 — re-delivering already merged data changes nothing (DESIGN §4/C07)."""
 from rules import lib
 from rules.lib import Prov, show, walk
-from props import common, mergetab
+from props import common, mergetab, sides
 
 LEVEL = ("Mechanism level: idempotence law on the extracted merge tables (merge(v,v) returns the previous operand, no "
          "error, for every state kind incl. the value-kind sub-table and canon), a met RequestSentBy never becomes "
@@ -11,6 +11,7 @@ LEVEL = ("Mechanism level: idempotence law on the extracted merge tables (merge(
 
 def check(ctx):
     F = ctx.facts("prod")
+    sides.check_sides(ctx, F)
     ctx.clause("R-TABLE idempotence: diagonal cells of call / executed-value / canon / ap tables return the previous operand without error")
     ctx.clause("R-TABLE handle_prev_state: RequestSentBy rows never re-issue an own request; met states re-emitted")
     ctx.clause("R-TABLE handle_canon_request_sent_by non-target edge re-emits canon_result, no next peer pushed")
